@@ -198,6 +198,30 @@ CLAIMED = {
             "through four generators, with Rust's accept/reject verdict compared to MustReject/MustAccept.",
             "Trusted: the declaration scanners / clang route of C13 to read which ABI a function is bound with.",
             "5 C17"),
+    "C28": ("model_checking",
+            "TLA+ TypeEq.tla (structural equality DefEq, content facts, usage facts, union over classes) model-checked for being an "
+            "equivalence with class-constant facts on every enumerated world; TLC-generated worlds with expected partition and facts "
+            "replayed into the real wit_bindgen_core::Types (analyze + collect_equal_types)",
+            "Every sequence of 3 definitions from 10 closed + 5 open templates per earlier definition (equal / reordered / renamed "
+            "records, variants, enums, flags, aliases, containers, two resources, own/borrow handles), use sites rotating over "
+            "import/export x param/result/error: 6.7k worlds (quick), 20k (thorough).",
+            "Trusted: wit-parser resolution of the rendered WIT; the `error` fact is read as 'the definition named in the error "
+            "position'; facts do not look through future/stream payloads.",
+            "5 C28"),
+    "C29": ("model_checking",
+            "TLA+ MarkdownDoc.tla: the link-rewriting pass as a machine over the Markdown event stream (MC over all event strings <= 6: "
+            "no new nesting; witness for the pre-fix behaviour) + the clauses NoNestedLinks / RefsDefined / DocsVerbatim judged by TLC on "
+            "observations of real generated documents (HTML tokenised)",
+            "300 documentation shapes (pairs of 10 line kinds x {function, type, field}) + WorldGrammar worlds with docs + tests/codegen.",
+            "Trusted: Python html.parser; docs on packages/worlds/interfaces are not rendered by the backend at all and are out of scope.",
+            "5 C29"),
+    "C30": ("model_checking",
+            "TLA+ MoonPkgGraph.tla: model worlds (GEN) and the clauses Declared / OneAliasPerPackage / NoDuplicateEntries / Exists / "
+            "References judged by TLC on observations of the real MoonBit generator's output (moon.pkg.json + `@alias.` uses)",
+            "All 31 non-empty subsets of five interfaces with equal last segments, kebab-case names and two versions of one package x "
+            "{import, export, both} x {default, --async=all}, plus tests/codegen (graph clauses only).",
+            "Trusted: textual extraction of `@alias.` uses after removing strings and comments.",
+            "5 C30"),
     "C31": ("exploration",
             "WorldGrammar.tla worlds + adversarial-name worlds + corpus -> real C++ generator -> g++ -std=c++20 -fsyntax-only "
             "against the repository's helper headers",
